@@ -117,6 +117,7 @@ Proof.
   intros Hc s1 s2. destruct (feet_perpendicular Hc) as [H1 H2].
   rewrite (dist2_pythagoras _ _ s1 s2 H1 H2). cbv zeta.
   match goal with |- _ <= _ + vdot Rops ?v ?v => assert (0 <= vdot Rops v v) end; [|lra].
+  clear H1 H2. set (t1 := foot1 r1 r2). set (t2 := foot2 r1 r2). clearbody t1 t2.
   subst r1 r2. unf.
   match goal with |- 0 <= ?a * ?a + (?b * ?b + (?c * ?c + 0)) =>
     pose proof (sq_nonneg a); pose proof (sq_nonneg b); pose proof (sq_nonneg c) end. lra.
@@ -247,16 +248,21 @@ Proof.
   split; [reflexivity|]. split; [reflexivity|].
   destruct (Rltb D (tol * tol)) eqn:E.
   - apply Rltb_true in E.
-    repeat split; intros; try discriminate; try lra; try reflexivity.
-    + exfalso. apply Hle in H. lra.
-    + destruct (Rlt_dec L tol); [assumption|]. exfalso. assert (tol <= L) by lra. apply Hle in H0. lra.
-    + exfalso. apply Hq in H. lra.
+    assert (N2 : L < tol).
+    { destruct (Rlt_dec L tol); [assumption|]. exfalso. assert (H0 : tol <= L) by lra. apply Hle in H0. lra. }
+    refine (conj _ (conj _ (conj _ (conj _ _)))).
+    + split; [discriminate|]. intro H. exfalso. apply Hle in H. lra.
+    + split; [intros _; exact N2|reflexivity].
+    + split; [discriminate|]. intro H. exfalso. lra.
+    + split; [discriminate|]. intro H. exfalso. apply Hq in H. lra.
+    + discriminate.
   - apply Rltb_false in E.
-    repeat split; intros; try discriminate; try reflexivity.
-    + apply Hle. exact E.
-    + exfalso. apply Hle in E. lra.
-    + exact E.
-    + apply Hq. exact E.
+    refine (conj _ (conj _ (conj _ (conj _ _)))).
+    + split; [intros _; apply Hle; exact E|reflexivity].
+    + split; [discriminate|]. intro H. exfalso. apply Hle in E. lra.
+    + split; [intros _; exact E|reflexivity].
+    + split; [intros _; apply Hq; exact E|reflexivity].
+    + discriminate.
 Qed.
 
 (* [G] if the lines do not meet and tol does not exceed their distance |(p2-p1).(d1 x d2)| / |d1 x d2|, the answer is
@@ -336,7 +342,7 @@ Proof.
   match goal with |- context [Rltb ?a ?b] => destruct (Rltb a b) eqn:E end; [|reflexivity].
   exfalso. apply Rltb_true in E.
   assert (0 <= dist2 Rops (ray_eval Rops r1 (foot1 r1 r2)) (ray_eval Rops r2 (foot2 r1 r2))).
-  { set (t1 := foot1 r1 r2). set (t2 := foot2 r1 r2). clearbody t1 t2. subst r1 r2. unf.
+  { clear E Hz. set (t1 := foot1 r1 r2). set (t2 := foot2 r1 r2). clearbody t1 t2. subst r1 r2. unf.
     match goal with |- 0 <= ?a * ?a + (?b * ?b + (?c * ?c + 0)) =>
       pose proof (sq_nonneg a); pose proof (sq_nonneg b); pose proof (sq_nonneg c) end. lra. }
   lra.
